@@ -22,4 +22,11 @@
 
 int libwifi_parse_deauth(struct libwifi_parsed_deauth *deauth, struct libwifi_frame *frame);
 
+/**
+ * Free any memory claimed by a libwifi_parsed_deauth back to the system.
+ *
+ * @param deauth A libwifi_parsed_deauth
+ */
+void libwifi_free_parsed_deauth(struct libwifi_parsed_deauth *deauth);
+
 #endif /* LIBWIFI_PARSE_DEAUTH_H */
